@@ -1,5 +1,7 @@
 // jpatch family (C15/C16): enum values the models of JSON Patch / Merge Patch depend on
 #include "json/iwjson.h"
+#include "json/iwbinn.h"
+#include <string.h>
 #include "probe.h"
 int main(void) {
   ZV("JP_JBV_NONE", JBV_NONE); ZV("JP_JBV_NULL", JBV_NULL); ZV("JP_JBV_BOOL", JBV_BOOL); ZV("JP_JBV_I64", JBV_I64);
@@ -13,5 +15,35 @@ int main(void) {
   ZV("JP_ERR_PATCH_INVALID_ARRAY_INDEX", JBL_ERROR_PATCH_INVALID_ARRAY_INDEX); ZV("JP_ERR_PATCH_TEST_FAILED", JBL_ERROR_PATCH_TEST_FAILED);
   ZV("JP_ERR_JSON_POINTER", JBL_ERROR_JSON_POINTER); ZV("JP_ERR_CREATION", JBL_ERROR_CREATION);
   ZV("JP_ERR_INVALID_ARGS", IW_ERROR_INVALID_ARGS); ZV("JP_ERR_NOT_IMPLEMENTED", IW_ERROR_NOT_IMPLEMENTED);
+  // behaviour of the binn object writer behind the write-back step of jbl_patch / jbl_merge_patch (_jbl_from_node_impl ->
+  // binn_object_set_value2): the longest member name it stores, and whether a name that differs from a stored one only in
+  // ASCII letter case is refused (coq/JSON/WriteBack.v: set_ok / key_clash)
+  {
+    static char key[512];
+    memset(key, 'k', sizeof(key) - 1);
+    int maxlen = 0;
+    for (int len = 1; len <= 400; ++len) {
+      binn obj, v;
+      binn_create(&obj, BINN_OBJECT, 0, NULL);
+      binn_init_item(&v);
+      binn_set_int64(&v, 1);
+      if (binn_object_set_value2(&obj, key, len, &v)) maxlen = len;
+      binn_free(&v);
+      binn_free(&obj);
+    }
+    ZV("JP_BINN_KEY_MAX", maxlen);
+    binn obj, v;
+    binn_create(&obj, BINN_OBJECT, 0, NULL);
+    binn_init_item(&v);
+    binn_set_int64(&v, 1);
+    int a = binn_object_set_value2(&obj, "name", 4, &v);
+    int b = binn_object_set_value2(&obj, "Name", 4, &v);      // case-only twin
+    int c = binn_object_set_value2(&obj, "namf", 4, &v);      // another name of the same length
+    int d = binn_object_set_value2(&obj, "Names", 5, &v);     // a longer name with a twin prefix
+    int e = binn_object_set_value2(&obj, "name", 4, &v);      // the same name again
+    ZV("JP_BINN_KEY_NOCASE", (a && !b && c && d && !e) ? 1 : 0);
+    binn_free(&v);
+    binn_free(&obj);
+  }
   return 0;
 }
